@@ -168,7 +168,7 @@ func C09TypeRule() {
 var defRuleNames = []string{"duplicate-type-name", "bad-type-name-casing", "bad-field-name-casing", "duplicate-field-name", "bad-step-name-casing",
 	"duplicate-step-name", "bad-enum-symbol-casing", "duplicate-enum-symbol", "duplicate-enum-value", "enum-value-out-of-range", "non-integer-enum-base",
 	"generic-enum", "generic-protocol", "unused-type-parameter", "reference-cycle-records", "reference-cycle-aliases", "self-reference", "reserved-type-name",
-	"bad-type-parameter-casing", "duplicate-computed-field-name", "flags-value-out-of-range"}
+	"bad-type-parameter-casing", "duplicate-computed-field-name", "flags-value-out-of-range", "reference-cycle-plain-aliases"}
 
 func violateDef(b *mb, n *dsl.Namespace, rule int) {
 	ns := n.Name
@@ -238,6 +238,14 @@ func violateDef(b *mb, n *dsl.Namespace, rule int) {
 		lit.Value = *big.NewInt(1)
 		r.ComputedFields = dsl.ComputedFields{&dsl.ComputedField{NodeMeta: b.meta(), Name: "z", Expression: lit}}
 		add(r)
+	case 21:
+		// aliases that are plain names of each other (no vector / optional in between), or of themselves
+		if verifChoose("plain-alias-cycle-length", 2) == 0 {
+			add(b.alias(ns, "Xa", nil, b.st("Xa")))
+		} else {
+			add(b.alias(ns, "Xa", nil, b.st("Xb")))
+			add(b.alias(ns, "Xb", nil, b.st("Xa")))
+		}
 	default:
 		e := b.enum(ns, "Opts", b.st("uint8"), "a", "b")
 		e.IsFlags = true
